@@ -41,6 +41,9 @@ VIOLATIONS = [
     # violations inside type names (abstract declarators: no identifier whose location could be taken)
     ("int z%d = sizeof(long [-1]);", "block"), ("int e%d = sizeof(long [-1]);", "file"), ("int z%d = _Alignof(int [-2]);", "block"), ("(void)sizeof(struct inc_t [4]);", "block"),
     ("(void)(int (*)(void)[2])0;", "block"), ("int e%d = sizeof(int (*)(void)(void));", "file"), ("(void)sizeof(void [2]);", "block"), ("(void)_Generic(0, int (void)[1]: 1, default: 2);", "block"),
+    # diagnostics raised at the end of the line or of the function
+    ("char *e%d = \"abc", "file"), ("int e%d = 'a", "file"), ("char *z%d = \"abc;", "block"), ("goto nolab%d;", "block"), ("if (l_acc) goto nolab%d; else l_acc++;", "block"),
+    ("@macro-redef", "file"), ("@macro-redef", "block"), ("#define ZBAD%d(x", "file"),
     ("int z%d = sizeof(int[);", "block"), ("void zv%d;", "block"), ("@macro-arity", "file"), ("@macro-arity", "block"), ("@macro-arity", "block"), ("int z%d = 1 +* ;"[:0] or "(void)undeclared_q;", "block"),
 ]
 
@@ -160,6 +163,11 @@ def decorated(draw):
     n = vio.count("%d")
     vio = vio % tuple(uid() for _ in range(n)) if n else vio
     macro_def_lines = []
+    if vio == "@macro-redef":
+        k1 = uid()
+        lines.append("#define ZRD%d 1" % k1)
+        vio = "#define ZRD%d 2" % k1
+        labels.add("macro-redefinition")
     if vio == "@macro-arity":
         # a function-like macro invoked with the wrong number of arguments inside another macro's replacement list (written
         # over one or more spliced lines, possibly in a region a line marker attributes to another file) and expanded later:
@@ -271,11 +279,14 @@ def check_text(case, ctx):
         shutil.rmtree(d, ignore_errors=True)
     res.sample = {"vio": case["vio"], "labels": case["labels"], "tail": text[-200:]}
     res.labels.extend(case["labels"])
-    if g.rc == 0 or not gm:
+    # A benign-looking macro redefinition is only a warning for gcc: for that kind the line tracker alone is the oracle (it is
+    # the same tracker, over the same decorations, that gcc confirms for every other kind of violation in this run).
+    tracker_only = "macro-redefinition" in case["labels"] and g.rc == 0
+    if (g.rc == 0 or not gm) and not tracker_only:
         res.discard.append("gcc-accepts-or-no-location")
         return res
-    gloc = (gm.group(1), int(gm.group(2)))
-    if gloc not in want:
+    gloc = (gm.group(1), int(gm.group(2))) if gm else ("?", 0)
+    if gloc not in want and not tracker_only:
         res.discard.append("tracker-and-gcc-disagree")
         res.labels.append("TRACKER-GCC-MISMATCH")
         res.labels.append("mismatch-vio:" + case["vio"][:30])
